@@ -1,4 +1,5 @@
 mod b64;
+mod fsweep;
 mod codec;
 mod jsonmodel;
 mod pool;
@@ -45,6 +46,9 @@ fn main() {
             probe::install_panic_hook();
             let n: usize = args[4].parse().expect("threads");
             probe::run_cold_race(&args[2], &args[3], n);
+        }
+        "fsweep" => {
+            fsweep::run(&args[2..]);
         }
         "b64" => {
             b64::run(&args[2..]);
